@@ -6,7 +6,8 @@
    step's selection together. *)
 From Coq Require Import String List Bool Arith ZArith Lia.
 From GW Require Import Base.Res Base.GoStr Base.Json Gql.Syntax Gql.Spec Gw.Points
-     Proofs.CodecProofs Proofs.PointsProofs Proofs.StitchSound Proofs.JoinSound Proofs.StepJoin.
+     Proofs.CodecProofs Proofs.PointsProofs.
+From GW Require Import Proofs.StitchSound Proofs.JoinSound Proofs.StepJoin.
 Import ListNotations.
 Open Scope string_scope.
 Open Scope list_scope.
@@ -15,7 +16,7 @@ Section Points.
   Variable w : world.
   Variable frags : list fragdef.
   Variable vars : list (string * json).
-  Hypothesis world_atomic : forall o rt c, atomic_f (resolve w vars o rt c).
+  Hypothesis world_atomic : atomic_world w vars.
   Variable l1 l2 : list sel.
   Hypothesis good_sub : good (l1 ++ [id_sel]).
   Hypothesis good_l2 : good l2.
@@ -177,12 +178,12 @@ Example list_field_example :
   let u2 := {| b_id := "u:2#x"; b_type := "User"; b_fields := [("name", FScalar (JStr "bob")); ("photo", FScalar (JStr "b.png"))] |} in
   let w := {| w_objs := [u1; u2]; w_roots := [("Query.users", FList [FRef "u1"; FRef "u:2#x"])]; w_possible := []; w_ftypes := [] |} in
   let l1 := [Field "" "name" [] [] []] in
-  clean_key "users" /\
+  atomic_world w [] /\ clean_key "users" /\
   resolve w [] None "Query" (to_c (Field "" "users" [] [] (l1 ++ [id_sel]))) = FList (map (fun o => FRef (b_id o)) [u1; u2]) /\
   Forall (fun o => find_obj (b_id o) (w_objs w) = Some o) [u1; u2] /\
   find_insertion_points ["users"] [FS "users" true false []]
     (match exec 5 w [] [] None "Query" [Field "" "users" [] [] (l1 ++ [id_sel])] with JObj m => m | _ => [] end) [] =
     Ok [["users:0#u1"]; ["users:1#u:2#x"]].
 Proof.
-  cbv zeta. split; [split; reflexivity|]. split; [reflexivity|]. split; [repeat constructor|]. vm_compute. reflexivity.
+  cbv zeta. split; [apply atomic_world_intro; cbn; repeat constructor|]. split; [split; reflexivity|]. split; [reflexivity|]. split; [repeat constructor|]. vm_compute. reflexivity.
 Qed.
